@@ -11,7 +11,8 @@ from vlib import BUILD, Report, log, run_jobs, write_evidence
 
 
 def run_protocol_check(prop, tier, runs, rule_prefix, assumptions, level="model_checking", engine="enum",
-                       extra_cov=None, post=None, sum_keys=("scans", "fault_runs", "allocating_transitions", "reference_states")):
+                       extra_cov=None, post=None, sum_keys=("scans", "fault_runs", "allocating_transitions", "reference_states"),
+                       finish=True):
     """runs: list of dict(binary=path, args=[...], label=str, env={}).  Each run
     gets --out; results are summed."""
     t0 = time.time()
@@ -38,7 +39,12 @@ def run_protocol_check(prop, tier, runs, rule_prefix, assumptions, level="model_
             hist = None
             if crash and os.path.exists(j["prog"]):
                 hist = open(j["prog"], "rb").read().split(b"\0")[0].decode(errors="replace")
-            vprop = crash(rc, se or "") if (crash and hist) else None
+            vprop = None
+            if crash and hist:
+                try:
+                    vprop = crash(rc, se or "", hist)
+                except TypeError:
+                    vprop = crash(rc, se or "")
             if vprop is None:
                 report.infra_errors.append("%s: runner ended with %r: %s" % (r["label"], rc, (se or "")[-800:]))
                 continue
@@ -97,7 +103,9 @@ def run_protocol_check(prop, tier, runs, rule_prefix, assumptions, level="model_
                     break
                 res2 = json.load(open(out2))
                 os.remove(out2)
-                if not any(x.get("signature") == sig for x in res2.get("violations", [])):
+                same = any(x.get("signature") == sig for x in res2.get("violations", []))
+                # a contained crash of the code under test (memory corruption) may come back as garbage output instead
+                if not same and not (sig.endswith("/crash") and res2.get("violations")):
                     ok = False
                     break
             if not ok:
@@ -123,7 +131,9 @@ def run_protocol_check(prop, tier, runs, rule_prefix, assumptions, level="model_
     if extra_cov:
         coverage.update(extra_cov() if callable(extra_cov) else extra_cov)
     nviol = len(report.violations)
-    write_evidence(prop, tier, level, coverage, wall, nviol, assumptions)
     log("%s %s: %d evaluations, %d states, %.1fs, %d violation(s), exhaustive=%s" %
         (prop, tier, tot["evaluations"], tot["states"], wall, nviol, coverage["exhaustive"]))
+    if not finish:
+        return report, coverage, assumptions
+    write_evidence(prop, tier, level, coverage, wall, nviol, assumptions)
     return report.finish()
